@@ -175,14 +175,30 @@ def compare(exp, res):
     return None
 
 
-def run_and_compare(progs, render_opts=None, gc="none", variant="plain"):
+def run_and_compare(progs, render_opts=None, gc="none", variant="plain", also_minimal=False):
     """progs: list of (id, tree). Returns (oracle, results, disagreements{id: msg})"""
     oracle = tlc_oracle(progs)
     jobs = [{"id": pid, "src": bsyntax.render(p, **(render_opts or {})), "gc": gc} for pid, p in progs]
+    # second rendering with only the parentheses the precedence table requires (same tree, same reference)
+    njobs = len(jobs)
+    if also_minimal:
+        for k in range(njobs):
+            m = bsyntax.render(progs[k][1], minimal=True, **(render_opts or {}))
+            if m != jobs[k]["src"]:
+                jobs.append({"id": "min:%s" % (progs[k][0],), "src": m, "gc": gc})
     res = runner.run_jobs(jobs, variant=variant)
     bad = {}
     for pid, p in progs:
         m = compare(oracle[pid], res[pid])
+        if not m and ("min:%s" % (pid,)) in res:
+            m = compare(oracle[pid], res["min:%s" % (pid,)])
+            if m:
+                m = "[minimal parentheses] " + m
+                res[pid] = res["min:%s" % (pid,)]
+                MINIMAL_BAD.add(pid)
         if m:
             bad[pid] = m
     return oracle, res, bad
+
+
+MINIMAL_BAD = set()
